@@ -25,7 +25,7 @@ for pid in sorted(P.PROPS):
         evidence_file='/verif/evidence/%s.json' % pid,
         replay_cmd_template='./check %s --replay {path}' % pid,
         engine='coq-model+correspondence',
-        level_claimed=dict(category='proof', text=s.get('level_text', ''), design_ref=s.get('design_ref', 'DESIGN.md §5 ' + pid)),
+        level_claimed=dict(category='proof', text=s.get('level_text', ''), design_ref=s.get('design_ref', 'DESIGN.md §10 %s (as built; §5 %s is the plan)' % (pid, pid))),
         level_note=s.get('level_note', ''),
         technique=s.get('technique', 'Coq 8.16.1 theorems on a Gallina model + correspondence check (extracted model vs library)'),
     ))
